@@ -26,6 +26,7 @@ func fail(err error) {
 }
 
 func main() {
+	mime.Setup()
 	if p := os.Getenv("VERIF_DRIVER"); p != "" {
 		drv.Path = p
 	}
